@@ -193,7 +193,10 @@ def decide(prop, tier='quick', seed=0, units=None, jobs=8, quiet=False):
                        function_source=dict(path=fl.src, lines=fl.src_lines),
                        verifier_output=[e for e in r.raw_errors if fl.code[:40] in e or (fl.clause and fl.clause[:40] in e)][:4] or r.raw_errors[:6],
                        expansion=fl.expansion, verus_cmd=r.cmd, generated_file=r.gen_path,
-                       failing_input=None, note=r.reason)
+                       failing_input=None, note=r.reason,
+                       passed_on_unchanged_tree=('yes: this is a named contract clause / marker; every named obligation is discharged on the unchanged tree (checked by every run there)'
+                                                 if (fl.kind in ('post', 'inv') or '@ghost' in fl.oid or '.pre[' in fl.oid) else
+                                                 'a generated safety obligation at this source location; all safety obligations of this function are discharged on the unchanged tree'))
         ce = try_counterexample(prop, fl)
         suffix = ''
         if ce:
